@@ -77,6 +77,17 @@ def deps_of(av: Optional[AV]) -> frozenset:
     return all_deps(av) if av is not None else frozenset()
 
 
+def may_be_element_of(av: Optional[AV], field_loc) -> bool:
+    """Can the value be (identity, not mere dependence) an element of the collection stored at field_loc?"""
+    if av is None:
+        return False
+    root, path = field_loc
+    for l in av.alias:
+        if l[0] == root and l[1][:len(path)] == path and len(l[1]) > len(path):
+            return True
+    return False
+
+
 def arg_deps(ev: Event, i: int) -> frozenset:
     if i < len(ev.args):
         return deps_of(ev.args[i])
@@ -116,6 +127,18 @@ class Oblig:
         if why:
             return self.rep.error(rule, oblig, fi.qname, role, what_bad + " - but " + why, site=site)
         return self.rep.violation(rule, oblig, fi.qname, role, what_bad, site=site, path=path)
+
+    def worklist(self, oblig, fi, role, what_ok, what_bad):
+        """R10a with the verdict policy: a loop of another shape (recursion, comprehension) is `not understood`
+        (ANALYSIS-ERROR), an understood worklist with a missing guard / mark is a violation."""
+        ok, why, info = is_worklist_closure(fi.node)
+        site = site_of(self.eng.prog, fi, fi.node)
+        if ok:
+            return self.rep.holds("R10a", oblig, fi.qname, role, what_ok, site=site)
+        if why == "no worklist loop found":
+            return self.rep.error("R10a", oblig, fi.qname, role, what_bad + ": the closure is not written as a worklist "
+                                  "loop any more; the rule cannot follow it", site=site)
+        return self.rep.violation("R10a", oblig, fi.qname, role, what_bad + ": " + why, site=site)
 
     def flow(self, rule, oblig, fi, summ, role, evs, argidx, tag, what, ctrl_ok=False, must_all=False):
         """Some (or every) event among `evs` has `tag` in the dependencies of argument `argidx`."""
